@@ -60,6 +60,7 @@ type Op struct {
 	Dom    uint32   `json:"dom,omitempty"`
 	Raw    string   `json:"raw,omitempty"` // base64 packet data (byz)
 	Note   string   `json:"note,omitempty"`
+	Fail   bool     `json:"fail,omitempty"` // admin: append a message that fails, so the whole tx is rolled back
 }
 
 type PktState int
@@ -110,6 +111,8 @@ type txMeta struct {
 	GasCut  bool
 	Class   string
 	Shadow  []*shadowResult // per msg, when shadows are enabled
+	soleInBlock bool
+	ModelAtShadow *OrbModel
 }
 
 func (s *Sim) acct(name string) *Account {
@@ -420,7 +423,18 @@ func (s *Sim) execAdmin(op Op) {
 		s.skip(op, "unknown admin message or target")
 		return
 	}
-	s.enqueue(&PendingTx{Signer: signer, Gas: 20_000_000, Msgs: []sdk.Msg{msg}, Meta: &txMeta{OpID: op.ID, Kind: kind, Op: op}})
+	msgs := []sdk.Msg{msg}
+	if op.Fail {
+		// a second message that cannot succeed: baseapp rolls the whole transaction back
+		huge, _ := sdkmath.NewIntFromString("1000000000000000000000000000000")
+		msgs = append(msgs, &banktypes.MsgSend{FromAddress: signer.Addr.String(), ToAddress: s.Env.Rcpt[0].Addr.String(), Amount: sdk.NewCoins(sdk.NewCoin(DenomStake, huge))})
+		s.Stats.Fault("admin_tx_rolled_back")
+	}
+	gas := uint64(20_000_000)
+	if op.Gas != 0 {
+		gas = op.Gas
+	}
+	s.enqueue(&PendingTx{Signer: signer, Gas: gas, Msgs: msgs, Meta: &txMeta{OpID: op.ID, Kind: kind, Op: op}})
 }
 
 func (s *Sim) inflightCount() int {
